@@ -167,3 +167,92 @@ Example C08_example_wraparound_search_cycles :
   bin_search 5000 (fun _ => ExOOG) (TxGas - 1) 18446744073709551615 = BFuel /\
   In 0 (map (fun g => g / 2) (bin_probes 200 (fun _ => ExOOG) (TxGas - 1) 18446744073709551615)).
 Proof. vm_compute. split; [reflexivity|]. tauto. Qed.
+
+(* ---------------------------------------------------------------------------------------------------------------
+   Tracing a transaction of a block (TraceTx with predecessors, TraceBlock) predicts what the block did.
+   [apply] = ApplyMessageWithConfig(commit=true) on the query's own context, arbitrary; the block = ante handler
+   (admits or not) + state transition + fee bookkeeping, arbitrary, related to the trace only by [eqv] = "equal up to
+   what the prediction clause excludes" (fee bookkeeping: sender balance, fee collector, supply). *)
+
+(* for ANY block and any position in it: when every predecessor was executed by the block -- reverted, out-of-gas and
+   INVALID ones included: they are replayed and committed like the others, their nonce is consumed -- or refused by the
+   ante handler for a reason the state transition refuses it for as well, TraceTx answers exactly the block's result *)
+Theorem C08_trace_predicts_block_partial :
+  forall (St T R : Type) (apply : St -> T -> option (St * R)) (admitted : St -> T -> bool)
+         (pre_fx : St -> T -> St) (post_fx : St -> T -> R -> St) (core_fx : St -> T -> St) (eqv : St -> St -> Prop),
+    (forall a b c, eqv a b -> eqv b c -> eqv a c) -> (forall s t, eqv (pre_fx s t) s) -> (forall s t r, eqv (post_fx s t r) s) ->
+    (forall a b t, eqv a b -> match apply a t, apply b t with
+                              | Some (a', x), Some (b', y) => x = y /\ eqv a' b'
+                              | None, None => True
+                              | _, _ => False
+                              end) ->
+    forall pre t post s st r, eqv s st -> preds_ok apply admitted pre_fx post_fx core_fx eqv s pre ->
+      nth_error (snd (block_run apply admitted pre_fx post_fx core_fx s (pre ++ t :: post))) (length pre) = Some (BkExec r) ->
+      trace_tx apply st pre t = Some r.
+Proof. intros St T R apply admitted pre_fx post_fx core_fx eqv. exact (trace_predicts_block apply admitted pre_fx post_fx core_fx eqv). Qed.
+Print Assumptions C08_trace_predicts_block_partial.
+
+(* without the condition on the predecessors the statement is false for the code as it is (known finding
+   C08/query/prediction/TraceTx+predecessors/after-core-error-predecessor): a predecessor the ante handler admitted and
+   the state transition refused (gas limit below the intrinsic gas, value above the balance) consumed its nonce in the
+   block; TraceTx's loop skips it ("continue"), and the next transaction of that sender is answered "nonce too high" *)
+Definition C08_trace_predicts_block_full : Prop := trace_predicts_block_full.
+Theorem C08_trace_predicts_block_refuted : ~ C08_trace_predicts_block_full.
+Proof. exact trace_predicts_block_refuted. Qed.
+Print Assumptions C08_trace_predicts_block_refuted.
+
+(* what the complete replay is: told what the block did with each predecessor and keeping the effects of the refused
+   ones, the trace answers what the block did -- for any block, no condition *)
+Theorem C08_trace_with_real_outcomes_predicts_block :
+  forall (St T R : Type) (apply : St -> T -> option (St * R)) (admitted : St -> T -> bool)
+         (pre_fx : St -> T -> St) (post_fx : St -> T -> R -> St) (core_fx : St -> T -> St) (eqv : St -> St -> Prop),
+    (forall a b c, eqv a b -> eqv b c -> eqv a c) -> (forall s t, eqv (pre_fx s t) s) -> (forall s t r, eqv (post_fx s t r) s) ->
+    (forall a b t, eqv a b -> match apply a t, apply b t with
+                              | Some (a', x), Some (b', y) => x = y /\ eqv a' b'
+                              | None, None => True
+                              | _, _ => False
+                              end) ->
+    (forall a b t, eqv a b -> eqv (core_fx a t) (core_fx b t)) ->
+    forall pre t post s st r, eqv s st ->
+      nth_error (snd (block_run apply admitted pre_fx post_fx core_fx s (pre ++ t :: post))) (length pre) = Some (BkExec r) ->
+      trace_tx_with_outcomes apply core_fx st
+        (combine pre (firstn (length pre) (snd (block_run apply admitted pre_fx post_fx core_fx s (pre ++ t :: post))))) t = Some r.
+Proof. intros St T R apply admitted pre_fx post_fx core_fx eqv. exact (trace_with_outcomes_predicts_block apply admitted pre_fx post_fx core_fx eqv). Qed.
+Print Assumptions C08_trace_with_real_outcomes_predicts_block.
+
+(* TraceBlock's answer for transaction i is TraceTx's answer with the first i transactions as predecessors *)
+Theorem C08_trace_block_is_trace_tx : forall (St T R : Type) (apply : St -> T -> option (St * R)) txs s i t,
+  nth_error txs i = Some t -> nth_error (trace_block apply s txs) i = Some (trace_tx apply s (firstn i txs) t).
+Proof. intros St T R apply. exact (trace_block_nth apply). Qed.
+Print Assumptions C08_trace_block_is_trace_tx.
+
+(* leaving out the predecessors whose EVM execution failed breaks the prediction even for blocks in which every
+   transaction was executed: the theorem above is about the loop as it is *)
+Theorem C08_trace_dropping_failed_predecessors_refuted : ~ trace_dropping_failed_predicts_block.
+Proof. exact trace_dropping_failed_refuted. Qed.
+Print Assumptions C08_trace_dropping_failed_predecessors_refuted.
+
+(* the nonce skeleton the driver's cases are checked with (Corr/CorrQuery.v QTrace) meets the hypotheses *)
+Theorem C08_trace_skeleton_predicts_block : forall pre t post m r,
+  preds_ok skel_apply skel_admitted (fun m _ => m) (fun m _ _ => m) (fun m t => nm_bump m (b_sender t)) eq m pre ->
+  nth_error (snd (skel_block_run m (pre ++ t :: post))) (length pre) = Some (BkExec r) ->
+  trace_tx skel_apply m pre t = Some r.
+Proof. exact skel_trace_predicts_block. Qed.
+Print Assumptions C08_trace_skeleton_predicts_block.
+
+(* non-vacuity: sender 7 sends a reverting call (nonce 3), a successful one (4), one the state transition refuses (5)
+   and a successful one (6); sender 9 one in between.  The block executes transactions 0 1 2 4; the traces of 0 1 2
+   answer what the block did, the trace of transaction 4 (behind the refused one) fails *)
+Definition ex_block : list btx :=
+  [mkBtx 7 3 (BExec true); mkBtx 7 4 (BExec false); mkBtx 9 0 (BExec false); mkBtx 7 5 BCore; mkBtx 7 6 (BExec false)].
+Example C08_example_trace :
+  snd (skel_block_run [(7, 3)] ex_block) = [BkExec true; BkExec false; BkExec false; BkCore; BkExec false] /\
+  fst (skel_block_run [(7, 3)] ex_block) = [(7, 7); (9, 1)] /\
+  preds_ok skel_apply skel_admitted (fun m _ => m) (fun m _ _ => m) (fun m t => nm_bump m (b_sender t)) eq [(7, 3)] (firstn 2 ex_block) /\
+  trace_tx skel_apply [(7, 3)] (firstn 2 ex_block) (mkBtx 9 0 (BExec false)) = Some false /\
+  trace_tx skel_apply [(7, 3)] (firstn 1 ex_block) (mkBtx 7 4 (BExec false)) = Some false /\
+  trace_block skel_apply [(7, 3)] ex_block = [Some true; Some false; Some false; None; None] /\
+  trace_tx skel_apply [(7, 3)] (firstn 4 ex_block) (mkBtx 7 6 (BExec false)) = None /\
+  trace_tx_with_outcomes skel_apply (fun m t => nm_bump m (b_sender t)) [(7, 3)]
+    (combine (firstn 4 ex_block) (firstn 4 (snd (skel_block_run [(7, 3)] ex_block)))) (mkBtx 7 6 (BExec false)) = Some false.
+Proof. vm_compute. repeat split; reflexivity. Qed.
